@@ -311,9 +311,9 @@ def get_block_start(lines, lineno, maximum_indents=80):
                     for c in lines.get_line(j):
                         if c == "#":
                             break
-                        if c in "[(":
+                        if c in "[({":
                             bracs += 1
-                        if c in ")]":
+                        if c in ")]}":
                             bracs -= 1
                             if bracs < 0:
                                 break
